@@ -1,6 +1,6 @@
 """C15 Endian codecs place and fetch every value byte-exactly (proof, K8)."""
 import re
-from .. import cast, bitdom
+from .. import cast, bitdom, sym
 from ..bitdom import BV, Ptr, ZERO, ONE, TOP, Unsupported
 
 UNIT = 'src/registers/core.c'      # includes binary-format.h
@@ -390,6 +390,12 @@ def run_config(ck, variant, tag):
     u = cast.load(UNIT, variant)
     ck.unit(UNIT + tag)
     names = [n for n in u.functions_in_file('binary-format.h') if n.startswith('bf_')]
+    # helpers newer than the confirmed function table have no specification of their own: they are judged through the
+    # codecs that call them (the interpreter follows calls)
+    newer = [n for n in names if n not in sym.KNOWN_FUNCTIONS()]
+    if newer:
+        ck.notes.append('helpers without a specification of their own, interpreted inside their callers: %s' % ', '.join(sorted(newer)))
+    names = [n for n in names if n not in newer]
     ck.floor('C15.codec', 'bf_* functions in binary-format.h' + tag, len(names), FLOOR)
     ip = bitdom.Interp(u, big_endian=host_big)
     for name in sorted(names):
